@@ -176,7 +176,9 @@ def build(t):
         detail = f"sk'={sk2}"
         c = B.signature_bytes(B.g2_mul(H, sk2))
     elif arm == "other_msg":
-        m2 = [m + b"\x00", m[:-1] if m else b"\x00", bytes([m[0] ^ 1]) + m[1:] if m else b"\x01", m + m][b % 4]
+        m2 = [m + b"\x00", m[:-1] if m else b"\x00", bytes([m[0] ^ 1]) + m[1:] if m else b"\x01", m + m,
+              m[:-1] + bytes([m[-1] ^ 0x80]) if m else b"\x80",
+              m[:-65536] if len(m) >= 65536 else m[:len(m) // 2] + b"\x01"][b % 6]        # a whole trailing chunk missing
         c = B.signature_bytes(blssig.core_sign_point(sk, m2, dst))
     elif arm == "other_suite":
         tags = [d for d in list(blssig.DST.values()) + [blssig.POP_TAG, dst[:-1], dst + b"_", b""] if d != dst]
@@ -280,6 +282,13 @@ def t_verify(ctx, shard, nshards, n):
     for i, arm in enumerate(ARMS):
         ex.append(build((sc.SUITES[i % 3], "Verify", R - 1 - i, b"", arm, 12345 + i, i, [5])))
         ex.append(build(("pop", "PopVerify", 2 + i, b"", arm, 999 + i, i + 1, [766])))
+    # long messages whose hashed length sits on a 64 KiB boundary (65488 + 48 key bytes in the augmentation suite)
+    for i, (su, L) in enumerate((("basic", 65536), ("aug", 65488), ("pop", 131072))):
+        big = bytes((7 * q + i) % 251 for q in range(1024)) * (L // 1024 + 1)
+        ex.append(build((su, "Verify", 77 + i, big[:L], "other_msg", 5, 2, [3])))       # first byte flipped
+        ex.append(build((su, "Verify", 77 + i, big[:L], "other_msg", 5, 1, [3])))       # last byte dropped
+        ex.append(build((su, "Verify", 77 + i, big[:L], "other_msg", 5, 5, [3])))       # last 64 KiB dropped
+        ex.append(build((su, "Verify", 77 + i, big[:L], "canonical", 5, 1, [3])))
     drive(ctx, f"verify{shard}", s_case(), lambda c: o_verify(ctx, c), n, ex[shard::nshards], shrink=False)
 
 
